@@ -648,6 +648,10 @@ def run(ctx, prog):
     rb = ctx.body('C11.R2', 'MetadataInvertedIndex::rebuild_from')
     rbo = flow.Origin(rb, stop_at_vars=True)
     skip = [p for i, blk in enumerate(rb.blocks) if blk['t']['k'] == 'switch' for tg, p in flow.switch_edge_predicates(rb, i, rbo) if 'is_none' in p or 'variant(' in p and 'alive' in p]
+    if not skip:
+        # the tested slot bound to a pattern variable (`for (.., owner) in ..zip(alive.iter())` + `let Some(_) = owner else { continue }`): the same test on the expanded origin
+        skip = [p for i, blk in enumerate(rb.blocks) if blk['t']['k'] == 'switch' for tg, p in flow.switch_edge_predicates(rb, i, flow.Origin(rb))
+                if re.match(r'^variant\(.*\barg:alive\b.*\)@Some→Some\.0[.\d]*\) = (Some|None)$', p)]
     ctx.inst('C11.R2', rb.short, 'rebuild indexes live documents only', bool(skip) and bool(rb.calls_to('MetadataInvertedIndex::insert_doc')), 'liveness test: %s' % skip[:1])
     rp = ctx.body('C11.R2', 'MetadataInvertedIndex::replace_doc')
     ctx.inst('C11.R2', rp.short, 'replace = remove(old) then insert(new)', bool(rp.calls_to('MetadataInvertedIndex::remove_doc')) and bool(rp.calls_to('MetadataInvertedIndex::insert_doc'))
